@@ -136,8 +136,8 @@ def generate(rng, tier):
     # ---- every spelling of stratified + random instants
     days = special_days()
     if quick:
-        days = rng.sample(days, 260)
-    days = days + [rand_day(rng) for _ in range(240 if quick else 6000)]
+        days = rng.sample(days, 400)
+    days = days + [rand_day(rng) for _ in range(500 if quick else 6000)]
     for day in days:
         r = rng.random()
         t = day if r < 0.3 else day + TD(seconds=rand_secs(rng)) if r < 0.75 else day + TD(seconds=rng.randrange(86400), microseconds=rng.choice([1, 5, 999999, rng.randrange(10 ** 6)]))
